@@ -307,3 +307,233 @@ Proof.
     + intros (Hf & Hsub & Hsz). split; [apply Hpres; auto|]. split; auto. destruct Hsz; lia.
     + intros (Hin & Hsub & Hsz). repeat split; auto; [apply Hpres; auto | right; lia].
 Qed.
+
+(* ------------------------------------------------------------------------------------------------ label-linked search *)
+Lemma find_app : forall a b l, a <> [] -> b <> [] ->
+  find (a ++ b) l = match find a l with Some (_, Node c) => find b c | None => None end.
+Proof.
+  induction a as [|x [|y a'] IH]; intros b l Ha Hb; [congruence| |].
+  - destruct b as [|z b']; [congruence|]. cbn [app]. rewrite find_cons2, find_one. reflexivity.
+  - change ((x :: y :: a') ++ b) with (x :: (y :: a') ++ b). cbn [app]. rewrite !find_cons2.
+    destruct (get x l) as [[w [c]]|]; auto. apply (IH b c); congruence.
+Qed.
+Lemma find_val_app a b l w c : a <> [] -> b <> [] -> find a l = Some (w, Node c) -> find_val (a ++ b) l = find_val b c.
+Proof. intros Ha Hb H. unfold find_val. rewrite find_app, H by auto. reflexivity. Qed.
+Lemma find_prefix a b l : a <> [] -> find_val (a ++ b) l <> None -> exists w c, find a l = Some (w, c).
+Proof.
+  intros Ha H. destruct b as [|z b'].
+  - rewrite app_nil_r in H. unfold find_val in H. destruct (find a l) as [[w c]|]; [eauto | cbn in H; congruence].
+  - unfold find_val in H. rewrite find_app in H by (auto; congruence).
+    destruct (find a l) as [[w c]|]; [eauto | cbn in H; congruence].
+Qed.
+
+Lemma descend_cons x w c r pre : descend (Node ((x, w, c) :: r)) pre = (rev (x :: pre) :: descend c (x :: pre)) ++ descend (Node r) pre.
+Proof. reflexivity. Qed.
+Lemma label_nodes_cons m x w c r pre :
+  label_nodes m (Node ((x, w, c) :: r)) pre =
+  ((if x =? m then [(rev (x :: pre), c)] else []) ++ label_nodes m c (x :: pre)) ++ label_nodes m (Node r) pre.
+Proof. reflexivity. Qed.
+
+Lemma find_cons_eq_one x w c r : find [x] ((x, w, c) :: r) = Some (w, c).
+Proof. rewrite find_one. cbn [get]. rewrite Z.compare_refl. reflexivity. Qed.
+Lemma find_cons_eq_deep x y t w c r : find (x :: y :: t) ((x, w, Node c) :: r) = find (y :: t) c.
+Proof. rewrite find_cons2. cbn [get]. rewrite Z.compare_refl. reflexivity. Qed.
+Lemma find_cons_gt z t x w c r : x < z -> find (z :: t) ((x, w, c) :: r) = find (z :: t) r.
+Proof. intro H. apply find_head. cbn [get]. destruct (Z.compare_spec z x); auto; lia. Qed.
+Lemma find_cons_lt z t x w c r : z < x -> find (z :: t) ((x, w, c) :: r) = None.
+Proof.
+  intro H. assert (get z ((x, w, c) :: r) = None) as Hg by (cbn [get]; destruct (Z.compare_spec z x); auto; lia).
+  destruct t; [rewrite find_one, Hg | rewrite find_cons2, Hg]; reflexivity.
+Qed.
+Lemma find_head_get z t l : find (z :: t) l <> None -> get z l <> None.
+Proof. intros H Hg. apply H. destruct t; [rewrite find_one, Hg | rewrite find_cons2, Hg]; reflexivity. Qed.
+
+(* nodes found through find, with their subtrie: the three kinds of words of (x,w,c) :: r *)
+Lemma node_cons x w c0 r t' q : wf ((x, w, Node c0) :: r) -> t' <> [] ->
+  (find t' ((x, w, Node c0) :: r) = Some q <->
+   (t' = [x] /\ q = (w, Node c0)) \/ (exists t'', t'' <> [] /\ t' = x :: t'' /\ find t'' c0 = Some q) \/ find t' r = Some q).
+Proof.
+  intros Hwf Ht. apply wf_cons in Hwf as (Hlb & Hc & Hr). destruct t' as [|z tt]; [congruence|]. split.
+  - intro H. destruct (Z.compare_spec z x) as [E|E|E].
+    + subst z. destruct tt as [|y tt'].
+      * rewrite find_cons_eq_one in H. left. split; congruence.
+      * right; left. rewrite find_cons_eq_deep in H. exists (y :: tt'). repeat split; auto; congruence.
+    + rewrite find_cons_lt in H by auto. congruence.
+    + rewrite find_cons_gt in H by auto. right; right; auto.
+  - intros [[H1 H2]|[(t'' & Hne & Heq & Hf)|H]].
+    + inversion H1; subst. apply find_cons_eq_one.
+    + inversion Heq; subst. destruct t'' as [|y t3]; [congruence|]. rewrite find_cons_eq_deep. exact Hf.
+    + assert (x < z).
+      { apply lb_sibs_get_some with (r := r); auto. apply find_head_get with (t := tt). congruence. }
+      rewrite find_cons_gt by auto. exact H.
+Qed.
+
+Lemma descend_correct : forall l pre, wf l ->
+  forall t, In t (descend (Node l) pre) <-> exists t', t' <> [] /\ t = rev pre ++ t' /\ find_val t' l <> None.
+Proof.
+  apply (sibs_trie_ind
+           (fun c => forall pre, wf_t c -> forall t, In t (descend c pre) <-> exists t', t' <> [] /\ t = rev pre ++ t' /\ find_val t' (kids c) <> None)
+           (fun l => forall pre, wf l -> forall t, In t (descend (Node l) pre) <-> exists t', t' <> [] /\ t = rev pre ++ t' /\ find_val t' l <> None)).
+  - intros l H pre Hw t. cbn [kids]. apply H. rewrite <- wf_t_node; auto.
+  - intros pre _ t. cbn. split; [intros [] | intros (t' & _ & _ & Hf)]. rewrite find_val_nil_l in Hf. congruence.
+  - intros x w c r IHc IHr pre Hwf t. destruct c as [c0]. pose proof Hwf as Hwf0. apply wf_cons in Hwf as (Hlb & Hc & Hr).
+    rewrite descend_cons, in_app_iff. cbn [In]. rewrite (IHc (x :: pre)) by auto. rewrite (IHr pre) by auto. cbn [kids rev].
+    split.
+    + intros [[H|(t'' & Hne & Heq & Hf)]|(t' & Hne & Heq & Hf)].
+      * exists [x]. repeat split; auto; try congruence. rewrite find_val_cons_eq_one. congruence.
+      * exists (x :: t''). repeat split; try congruence.
+        -- rewrite Heq, <- app_assoc. reflexivity.
+        -- apply key_cons; auto; [congruence|]. right; left. exists t''. auto.
+      * exists t'. repeat split; auto. apply key_cons; auto.
+    + intros (t' & Hne & Heq & Hf). apply key_cons in Hf as [H|[(t'' & Hne'' & Heq'' & Hf'')|H]]; auto.
+      * subst. left; left. reflexivity.
+      * subst. left; right. exists t''. repeat split; auto. rewrite <- app_assoc. reflexivity.
+      * right. exists t'. auto.
+Qed.
+
+Lemma label_nodes_correct m : forall l pre, wf l ->
+  forall tau c, In (tau, c) (label_nodes m (Node l) pre) <->
+                exists tau' w, tau' <> [] /\ tau = rev pre ++ tau' /\ last tau' 0 = m /\ find tau' l = Some (w, c).
+Proof.
+  apply (sibs_trie_ind
+           (fun c0 => forall pre, wf_t c0 -> forall tau c, In (tau, c) (label_nodes m c0 pre) <->
+                        exists tau' w, tau' <> [] /\ tau = rev pre ++ tau' /\ last tau' 0 = m /\ find tau' (kids c0) = Some (w, c))
+           (fun l => forall pre, wf l -> forall tau c, In (tau, c) (label_nodes m (Node l) pre) <->
+                        exists tau' w, tau' <> [] /\ tau = rev pre ++ tau' /\ last tau' 0 = m /\ find tau' l = Some (w, c))).
+  - intros l H pre Hw tau c. cbn [kids]. apply H. rewrite <- wf_t_node; auto.
+  - intros pre _ tau c. cbn. split; [intros [] | intros (t' & w & _ & _ & _ & Hf)]. rewrite find_nil_l in Hf. congruence.
+  - intros x w c1 r IHc IHr pre Hwf tau c. destruct c1 as [c0]. pose proof Hwf as Hwf0. apply wf_cons in Hwf as (Hlb & Hc & Hr).
+    rewrite label_nodes_cons, !in_app_iff. rewrite (IHc (x :: pre)) by auto. rewrite (IHr pre) by auto. cbn [kids rev].
+    split.
+    + intros [[H|(t'' & w' & Hne & Heq & Hl & Hf)]|(t' & w' & Hne & Heq & Hl & Hf)].
+      * destruct (x =? m) eqn:E; [|destruct H]. destruct H as [H|[]]. inversion H; subst.
+        exists [x], w. repeat split; auto; try congruence; [cbn; lia | apply find_cons_eq_one].
+      * exists (x :: t''), w'. repeat split; try congruence.
+        -- rewrite Heq, <- app_assoc. reflexivity.
+        -- destruct t''; [congruence | exact Hl].
+        -- apply node_cons; auto; [congruence|]. right; left. exists t''. auto.
+      * exists t', w'. repeat split; auto. apply node_cons; auto.
+    + intros (t' & w' & Hne & Heq & Hl & Hf). apply node_cons in Hf as [[H1 H2]|[(t'' & Hne'' & Heq'' & Hf'')|H]]; auto.
+      * subst. left; left. cbn [last]. inversion H2; subst. rewrite Z.eqb_refl. left. reflexivity.
+      * subst. left; right. exists t'', w'. repeat split; auto; [rewrite <- app_assoc; reflexivity|].
+        destruct t''; [congruence | reflexivity].
+      * right. exists t', w'. auto.
+Qed.
+
+Lemma wf_find : forall tau l w c, wf l -> find tau l = Some (w, c) -> wf_t c.
+Proof.
+  induction tau as [|x [|y t] IH]; intros l w c Hwf H; [discriminate| |].
+  - rewrite find_one in H. eapply wf_get; eauto.
+  - rewrite find_cons2 in H. destruct (get x l) as [[w' [c']]|] eqn:E; [|discriminate].
+    apply (IH c' w c); auto. rewrite <- wf_t_node. eapply wf_get; eauto.
+Qed.
+Lemma subseq_nil_l b : subseq [] b = true.
+Proof. destruct b; reflexivity. Qed.
+Lemma subseq_app_r c : forall b d, subseq c d = true -> subseq c (b ++ d) = true.
+Proof. induction b as [|y b IH]; intros d H; cbn [app]; auto. apply subseq_cons_r. apply IH; auto. Qed.
+Lemma subseq_app : forall b a c d, subseq a b = true -> subseq c d = true -> subseq (a ++ c) (b ++ d) = true.
+Proof.
+  induction b as [|y b IH]; intros a c d H1 H2.
+  - rewrite subseq_nil_r in H1. destruct a; [exact H2 | discriminate].
+  - destruct a as [|x a].
+    + cbn [app]. apply subseq_cons_r. apply subseq_app_r; auto.
+    + rewrite subseq_cons in H1. cbn [app]. rewrite subseq_cons. destruct (x =? y).
+      * apply IH; auto.
+      * apply (IH (x :: a) c d); auto.
+Qed.
+Lemma ssorted_mid m : forall a b, ssorted (a ++ m :: b) -> ~ In m a /\ ~ In m b.
+Proof.
+  unfold ssorted. induction a as [|x a IH]; intros b H; cbn [app] in H.
+  - apply Sorted.StronglySorted_inv in H as [_ Hall]. split; [intros []|].
+    intro Hin. rewrite Forall_forall in Hall. specialize (Hall m Hin). lia.
+  - apply Sorted.StronglySorted_inv in H as [Hs Hall]. destruct (IH b Hs) as [H1 H2]. split; auto.
+    intros [->|Hin]; auto. rewrite Forall_forall in Hall. assert (Hmi : In m (a ++ m :: b)) by (apply in_or_app; right; left; reflexivity). specialize (Hall m Hmi). lia.
+Qed.
+Lemma subseq_split_at m t' : ~ In m t' ->
+  forall tau0 s0, ~ In m s0 -> subseq (s0 ++ [m]) (tau0 ++ m :: t') = true -> subseq s0 tau0 = true.
+Proof.
+  intro Hm. induction tau0 as [|y tau0 IH]; intros s0 Hs H.
+  - destruct s0 as [|a s0']; auto. exfalso. cbn [app] in H. rewrite subseq_cons in H.
+    destruct (a =? m) eqn:E; [apply Z.eqb_eq in E; subst; apply Hs; left; auto|].
+    apply subseq_incl in H. apply Hm. apply H. right. apply in_or_app. right. left. auto.
+  - destruct s0 as [|a s0']; [apply subseq_nil_l|]. cbn [app] in H. rewrite subseq_cons in *.
+    destruct (a =? y) eqn:E.
+    + apply IH; auto. intro Hin. apply Hs. right; auto.
+    + apply (IH (a :: s0')); auto.
+Qed.
+
+Theorem star_linked_correct l s : wf l -> keys_sorted l -> ssorted s -> s <> [] ->
+  forall t, In t (star_linked l s) <-> (find_val t l <> None /\ subseq s t = true).
+Proof.
+  intros Hwf Hk Hs Hne t.
+  pose proof (app_removelast_last 0 Hne) as Es.
+  unfold star_linked. set (s0 := removelast s) in *. set (m := last s 0) in *.
+  assert (Hms0 : ~ In m s0). { rewrite Es in Hs. apply (ssorted_mid m s0 []) in Hs. tauto. }
+  rewrite in_flat_map. split.
+  - intros ([tau c] & Hin & Ht). apply filter_In in Hin as [Hin Hsub]. cbn [fst snd] in *.
+    apply (label_nodes_correct m l [] Hwf) in Hin as (tau' & w & Hne' & Heq & Hl & Hf). cbn [rev app] in Heq. subst tau'.
+    pose proof (app_removelast_last 0 Hne') as Et. rewrite Hl in Et. set (tau0 := removelast tau) in *.
+    assert (Hst : subseq s tau = true).
+    { rewrite Es, Et. apply subseq_app; auto. rewrite subseq_cons, Z.eqb_refl. reflexivity. }
+    destruct Ht as [<-|Ht].
+    + split; auto. unfold find_val. rewrite Hf. cbn. congruence.
+    + destruct c as [c0]. assert (Hc0 : wf c0) by (rewrite <- wf_t_node; eapply wf_find; eauto).
+      apply (descend_correct c0 (rev tau) Hc0) in Ht as (t' & Hne'' & Heq & Hft). rewrite rev_involutive in Heq. subst t.
+      split.
+      * rewrite (find_val_app tau t' l w c0); auto.
+      * rewrite <- (app_nil_r s). apply subseq_app; auto. apply subseq_nil_l.
+  - intros [Hf Hsub].
+    assert (Hmt : In m t). { apply (subseq_incl _ _ Hsub). rewrite Es. apply in_or_app. right. left. auto. }
+    apply in_split in Hmt as (tau0 & t' & Heq).
+    pose proof (Hk t Hf) as Hst. rewrite Heq in Hst. destruct (ssorted_mid m tau0 t' Hst) as [_ Hmt'].
+    set (tau := tau0 ++ [m]).
+    assert (Htt : t = tau ++ t') by (unfold tau; rewrite <- app_assoc; exact Heq).
+    assert (Htau : tau <> []) by (unfold tau; destruct tau0; discriminate).
+    rewrite Htt in Hf. destruct (find_prefix tau t' l Htau Hf) as (w & c & Hfc).
+    exists (tau, c). split.
+    + apply filter_In. split.
+      * apply (label_nodes_correct m l [] Hwf). exists tau, w. repeat split; auto. unfold tau. apply last_last.
+      * cbn [fst]. unfold tau. rewrite removelast_last. apply (subseq_split_at m t' Hmt'); auto.
+        rewrite <- Es, <- Heq. exact Hsub.
+    + cbn [fst snd]. destruct t' as [|z t''].
+      * left. rewrite Htt, app_nil_r. reflexivity.
+      * right. destruct c as [c0]. assert (Hc0 : wf c0) by (rewrite <- wf_t_node; eapply wf_find; eauto).
+        apply (descend_correct c0 (rev tau) Hc0). exists (z :: t''). rewrite rev_involutive. repeat split; auto; [congruence|].
+        rewrite (find_val_app tau (z :: t'') l w c0) in Hf; auto. congruence.
+Qed.
+
+Theorem cofaces_linked_correct st s c :
+  wf (tree st) -> keys_sorted (tree st) -> ssorted s -> s <> [] -> 0 <= c ->
+  forall t, In t (cofaces_linked st s c) <->
+            (find_val t (tree st) <> None /\ subseq s t = true /\ (c = 0 \/ sdim t = sdim s + c)).
+Proof.
+  intros Hwf Hk Hs Hne Hc t. unfold cofaces_linked. rewrite filter_In, star_linked_correct by auto.
+  split.
+  - intros [[H1 H2] H3]. repeat split; auto. lia.
+  - intros (H1 & H2 & H3). repeat split; auto. lia.
+Qed.
+
+(* the two storage strategies answer the same *)
+Theorem linked_equals_unlinked st s c :
+  wf (tree st) -> keys_sorted (tree st) -> ub_valid st -> ssorted s -> s <> [] -> 0 <= c ->
+  forall t, In t (cofaces_unlinked true st s c) <-> In t (cofaces_linked st s c).
+Proof.
+  intros. rewrite cofaces_unlinked_correct, cofaces_linked_correct by auto. tauto.
+Qed.
+
+Theorem cofaces_history_linked ops s c :
+  forallb refined_op ops = true -> ok_history ops = true -> s <> [] -> cmem (spec_run ops) s = true -> 0 <= c ->
+  forall t, In t (cofaces_linked (run true ops) s c) <->
+            In t (if c =? 0 then star (spec_run ops) s else cofaces (spec_run ops) s c).
+Proof.
+  intros Hp Hok Hne Hmem Hc t. rewrite <- (cofaces_history ops s c Hp Hok Hne Hmem Hc).
+  assert (H0 : inv empty_state []).
+  { split; [split; [apply wf_nil|] |]; intros u _; cbn [tree empty_state]; rewrite find_val_nil_l; [reflexivity | congruence]. }
+  destruct (run_inv true ops empty_state [] H0 eq_refl Hp Hok) as [[Hwf Ha] Hub].
+  assert (Hks : KS (spec_run ops)) by (apply spec_run_KS; auto; intros u Hu; cbn in Hu; congruence).
+  fold (run true ops) in *. fold (spec_run ops) in *.
+  assert (Hkt : keys_sorted (tree (run true ops))).
+  { intros u Hu. destruct u as [|z u']; [constructor|]. apply Hks. rewrite <- Ha by congruence. exact Hu. }
+  assert (Hs : ssorted s). { apply Hks. unfold cmem in Hmem. destruct (lookup (spec_run ops) s); [congruence | discriminate]. }
+  symmetry. apply linked_equals_unlinked; auto.
+Qed.
